@@ -170,9 +170,9 @@ Proof. vm_compute. repeat split; reflexivity. Qed.
 
 (** ... while the same scheduler, on the code as found, after the lost
     wake-up prefix, ends in the deadlock. *)
-(** The bound is not vacuous: 422 for that program, and the run above uses 128 steps. *)
+(** The bound is not vacuous: 499 for that program, and the run above uses 151 steps. *)
 Example rank_of_example :
-  rank (init 2 prog_two) = 422 /\ length (fst (auto_run 400 cfg_fixed (init 2 prog_two))) = 128 /\
+  rank (init 2 prog_two) = 499 /\ length (fst (auto_run 400 cfg_fixed (init 2 prog_two))) = 151 /\
   rank (snd (auto_run 400 cfg_fixed (init 2 prog_two))) = 0.
 Proof. vm_compute. repeat split; reflexivity. Qed.
 
